@@ -182,6 +182,13 @@ def r5_named_scope_in_iteration(ctx: Ctx) -> None:
     r4_export(ctx)
 
 
+def r6_no_capacity_limit_on_scope_log(ctx: Ctx) -> None:
+    """a loop may run any number of iterations: no rejection keyed on the size of the append-only scope log (shared with C09.R7)"""
+    from .c09 import scope_log_is_not_a_depth
+
+    scope_log_is_not_a_depth(ctx)
+
+
 def rb_binding_agreement(ctx: Ctx) -> None:
     from ..ownership import binding_agreement
 
@@ -195,4 +202,4 @@ def rm_no_process_lifetime_results(ctx: Ctx) -> None:
     state_rule(ctx)
 
 
-RULES = [r1_if, r2_for, r3_parser_binding, r4_only_the_condition_is_guarded, r5_named_scope_in_iteration, rb_binding_agreement, rm_no_process_lifetime_results]
+RULES = [r1_if, r2_for, r3_parser_binding, r4_only_the_condition_is_guarded, r5_named_scope_in_iteration, r6_no_capacity_limit_on_scope_log, rb_binding_agreement, rm_no_process_lifetime_results]
